@@ -8,6 +8,8 @@
 package leveldb
 
 import (
+	"os"
+	"sync"
 	"time"
 
 	"github.com/syndtr/goleveldb/leveldb/opt"
@@ -110,4 +112,153 @@ func VerifVersionID(db *DB) int64 {
 	v := db.s.version()
 	defer v.release()
 	return v.id
+}
+
+// ---- the version layer driven for real, its events recorded instead of consumed by refLoop ----
+
+// VerifVLEvent is one event the version layer sent on the reference loop's channels.
+type VerifVLEvent struct {
+	Kind    int // 0 reference, 1 release, 2 delta, 3 abandon
+	Vid     int64
+	Levels  [][]int64
+	Added   []int64
+	Deleted []int64
+}
+
+// VerifVersionLayer is a real session (newSession, create/recover, commit, version, release,
+// close - the code of session.go, session_util.go and version.go) whose reference loop has been
+// stopped: a recorder receives what incref/releaseNB/setVersion/commit send.
+type VerifVersionLayer struct {
+	s      *session
+	mu     sync.Mutex
+	log    []VerifVLEvent
+	stop   chan struct{}
+	done   chan struct{}
+	held   []*version
+	closed bool
+}
+
+func verifLevelNums(levels []tFiles) [][]int64 {
+	out := make([][]int64, len(levels))
+	for i, l := range levels {
+		for _, t := range l {
+			out[i] = append(out[i], t.fd.Num)
+		}
+	}
+	return out
+}
+
+// VerifNewVersionLayer creates the session and opens it the way Open does (recover, or create when
+// nothing is there). The event "reference version 0" that newSession sends is consumed by the real
+// loop before it is stopped, and is put in the log by hand.
+func VerifNewVersionLayer(stor storage.Storage, o *opt.Options) (*VerifVersionLayer, error) {
+	s, err := newSession(stor, o)
+	if err != nil {
+		return nil, err
+	}
+	close(s.closeC)
+	s.closeW.Wait()
+	s.closeC = make(chan struct{})
+	vl := &VerifVersionLayer{s: s, stop: make(chan struct{}), done: make(chan struct{})}
+	vl.log = append(vl.log, VerifVLEvent{Kind: 0, Vid: 0})
+	go vl.record()
+	err = s.recover()
+	if err != nil && os.IsNotExist(err) {
+		err = s.create()
+	}
+	if err != nil {
+		vl.Close()
+		return nil, err
+	}
+	return vl, nil
+}
+
+func (vl *VerifVersionLayer) add(e VerifVLEvent) {
+	vl.mu.Lock()
+	vl.log = append(vl.log, e)
+	vl.mu.Unlock()
+}
+
+func (vl *VerifVersionLayer) record() {
+	defer close(vl.done)
+	s := vl.s
+	for {
+		select {
+		case t := <-s.refCh:
+			vl.add(VerifVLEvent{Kind: 0, Vid: t.vid, Levels: verifLevelNums(t.files)})
+		case t := <-s.relCh:
+			vl.add(VerifVLEvent{Kind: 1, Vid: t.vid, Levels: verifLevelNums(t.files)})
+		case d := <-s.deltaCh:
+			vl.add(VerifVLEvent{Kind: 2, Vid: d.vid, Added: append([]int64(nil), d.added...), Deleted: append([]int64(nil), d.deleted...)})
+		case id := <-s.abandon:
+			vl.add(VerifVLEvent{Kind: 3, Vid: id})
+		case <-vl.stop:
+			return
+		}
+	}
+}
+
+// Log returns a copy of the events recorded so far.
+func (vl *VerifVersionLayer) Log() []VerifVLEvent {
+	vl.mu.Lock()
+	defer vl.mu.Unlock()
+	return append([]VerifVLEvent(nil), vl.log...)
+}
+
+// Current returns the current version's id and tables.
+func (vl *VerifVersionLayer) Current() (int64, []VerifTable) {
+	v := vl.s.version()
+	defer v.release()
+	return v.id, verifDumpLevels(v.levels)
+}
+
+// Commit runs the real session.commit with a record that adds and deletes the given tables.
+func (vl *VerifVersionLayer) Commit(added []VerifTable, deleted []VerifTable) error {
+	rec := &sessionRecord{}
+	for _, t := range added {
+		vl.s.markFileNum(t.Num)
+		rec.addTable(t.Level, t.Num, t.Size, internalKey(t.Imin), internalKey(t.Imax))
+	}
+	for _, t := range deleted {
+		rec.delTable(t.Level, t.Num)
+	}
+	return vl.s.commit(rec, false)
+}
+
+// Acquire takes a reference on the current version (what readers do through session.version).
+func (vl *VerifVersionLayer) Acquire() int {
+	vl.held = append(vl.held, vl.s.version())
+	return len(vl.held) - 1
+}
+
+// NumHeld is the number of references taken by Acquire and not yet given back.
+func (vl *VerifVersionLayer) NumHeld() int { return len(vl.held) }
+
+// Release gives back the i-th held reference.
+func (vl *VerifVersionLayer) Release(i int) {
+	v := vl.held[i]
+	vl.held = append(vl.held[:i], vl.held[i+1:]...)
+	v.release()
+}
+
+// Close releases the held references and closes the session (session.close installs a closing version
+// without sending a delta; those last events are recorded too). It returns the length the log had before.
+func (vl *VerifVersionLayer) Close() int {
+	if vl.closed {
+		return len(vl.Log())
+	}
+	vl.closed = true
+	for len(vl.held) > 0 {
+		vl.Release(0)
+	}
+	n := len(vl.Log())
+	// session.close closes closeC itself; the recorder must keep receiving until then
+	go func() {
+		<-vl.s.closeC
+		close(vl.stop)
+	}()
+	vl.s.close()
+	<-vl.done
+	vl.s.release()
+	return n
 }
